@@ -1,6 +1,8 @@
 package main
 
 import (
+	"bytes"
+	"crypto/sha1"
 	"fmt"
 	"sync"
 	"sync/atomic"
@@ -27,7 +29,14 @@ type d71Result struct {
 	Lost     int    `json:"accepted_not_received"`
 	Example  string `json:"example,omitempty"`
 	Other    string `json:"other,omitempty"`
+	// every connection's stream: whole frames of handed packs, none twice, then at most a strict prefix of one
+	Conns         int    `json:"connections"`
+	Frames        int    `json:"whole_frames"`
+	Broken        int    `json:"broken_streams"`
+	BrokenExample string `json:"broken_example,omitempty"`
 }
+
+const keyD71 = "healthy_no_loss:close-race"
 
 func d71Round(seed uint64, senders, closes int) (res d71Result) {
 	clk := &clock{}
@@ -105,6 +114,51 @@ func d71Round(seed uint64, senders, closes int) (res d71Result) {
 	}
 	_ = c.Close()
 	time.Sleep(100 * time.Millisecond)
+	// whole frames under the Close() race (C06.close_race_whole_frames)
+	srv.shutdown()
+	srv.closeLive()
+	srv.wg.Wait()
+	known := map[[20]byte]*rec{}
+	for _, rc := range recs {
+		known[sha1.Sum(rc.frame)] = rc
+	}
+	seenOnce := map[[20]byte]bool{}
+	broken := func(f string, a ...interface{}) {
+		res.Broken++
+		if res.BrokenExample == "" {
+			res.BrokenExample = fmt.Sprintf(f, a...)
+		}
+	}
+	for _, cn := range srv.snapshot() {
+		res.Conns++
+		frames, tail, bad := parseStream(cn.data)
+		if bad != "" {
+			broken("connection %d: %s", cn.Idx, bad)
+			continue
+		}
+		for pos, f := range frames {
+			k := sha1.Sum(f)
+			if _, ok := known[k]; !ok && !bytes.Contains(f, []byte("d71 last")) {
+				broken("connection %d frame %d is not the frame of any pack handed to the client", cn.Idx, pos)
+			} else if seenOnce[k] {
+				broken("connection %d frame %d (%s) was received twice", cn.Idx, pos, known[k].id)
+			}
+			seenOnce[k] = true
+			res.Frames++
+		}
+		if len(tail) > 0 {
+			ok := false
+			for _, rc := range recs {
+				if len(tail) < len(rc.frame) && bytes.Equal(rc.frame[:len(tail)], tail) {
+					ok = true
+					break
+				}
+			}
+			if !ok {
+				broken("connection %d ends with %d bytes that are not the beginning of a handed frame", cn.Idx, len(tail))
+			}
+		}
+	}
 	for _, rc := range recs {
 		res.Sends++
 		if !rc.ok {
@@ -134,13 +188,19 @@ func runD71(seed uint64, budget time.Duration) d71Result {
 		agg.Accepted += r.Accepted
 		agg.Received += r.Received
 		agg.Lost += r.Lost
+		agg.Conns += r.Conns
+		agg.Frames += r.Frames
+		agg.Broken += r.Broken
+		if agg.BrokenExample == "" {
+			agg.BrokenExample = r.BrokenExample
+		}
 		if agg.Example == "" {
 			agg.Example = r.Example
 		}
 		if r.Other != "" {
 			agg.Other = r.Other
 		}
-		if agg.Lost > 0 {
+		if agg.Lost > 0 || agg.Broken > 0 {
 			break
 		}
 	}
